@@ -231,6 +231,102 @@ func ruleSTypes(p *Prog, r *Report) {
 			r.bad(rule, rule+":ast.(*DataMessage).Type", p.Pos(df.Pos()), `does not return the constant "data message"`)
 		}
 	}
+	controlHeaderFree(p, r, rule)
+}
+
+// controlHeaderFree: whether a control message is accepted depends on its
+// PType and SType only. The header decoder is evaluated on concrete 14-byte
+// messages of every E37 control SType with header bytes 0-3 at their extremes
+// (the bytes that mean stream, function and wait bit in a data message): each
+// must be accepted and its ten header bytes handed on unchanged.
+func controlHeaderFree(p *Prog, r *Report, rule string) {
+	fn := p.Func("hsms", "(*parser).parseMessage")
+	if fn == nil {
+		return
+	}
+	key := rule + ":hsms.parseMessage:control-header-bytes"
+	var bad, undec []string
+	n := 0
+	for st := range e37STypes {
+		for _, sess := range []int64{0, 0xFF} {
+			for _, b2 := range []int64{0, 0x7F, 0x80, 0xFF} {
+				for _, b3 := range []int64{0, 1, 2, 0xFF} {
+					hdr := []int64{sess, sess, b2, b3, 0, int64(st), 0x11, 0x22, 0x33, 0x44}
+					in := NewInterp(p)
+					in.PathBind["p0.input"] = Val{K: KSlice, S: "p0.input", Len: 14}
+					in.PathBind["len(p0.input)"] = int64Val(14)
+					in.PathBind["p0.msgLength"] = int64Val(10)
+					in.InitBind["p0.pos"] = int64Val(4)
+					for i, b := range hdr {
+						in.PathBind[fmt.Sprintf("p0.input[%d]", 4+i)] = int64Val(b)
+					}
+					var got []string
+					built := false
+					in.OnCall = func(call *ssa.Call, callee *ssa.Function, a []Val, fr *frame) {
+						if callee.Pkg == nil || callee.Pkg.Pkg.Name() != "ast" || !strings.HasPrefix(callee.Name(), "NewHSMS") || callee.Name() == "NewHSMSDataMessage" {
+							return
+						}
+						built = true
+						got = nil
+						for _, av := range a {
+							if av.K == KSlice && av.Len == 10 {
+								for i := 0; i < 10; i++ {
+									got = append(got, in.Elem(av, i, typByte).String())
+								}
+							}
+						}
+					}
+					out := in.Run(fn, defaultArgs(fn), nil)
+					n++
+					what := fmt.Sprintf("SType %d with header %s", st, hexOf(hdr))
+					if out.Frame == nil || len(in.Stuck) > 0 {
+						undec = append(undec, what+": evaluation stuck")
+						continue
+					}
+					acc, rej := false, false
+					for _, rv := range out.Frame.ReturnVals() {
+						if len(rv) == 1 && rv[0].K == KBool {
+							if rv[0].B {
+								acc = true
+							} else {
+								rej = true
+							}
+						} else {
+							acc, rej = true, true
+						}
+					}
+					if len(out.Frame.ReturnVals()) == 0 {
+						rej = true
+					}
+					var want []string
+					for _, b := range hdr {
+						want = append(want, fmt.Sprint(b))
+					}
+					switch {
+					case acc && rej:
+						undec = append(undec, what+": the evaluation does not decide between acceptance and refusal")
+					case rej:
+						bad = append(bad, what+" is refused: a control message is accepted whatever its bytes 0-3 are")
+					case !built:
+						undec = append(undec, what+": accepted, but no control message constructor was seen")
+					case len(got) == 10 && strings.Join(got, " ") != strings.Join(want, " "):
+						bad = append(bad, fmt.Sprintf("%s is built from the bytes %v", what, got))
+					}
+				}
+			}
+		}
+	}
+	pos := p.Pos(fn.Pos())
+	switch {
+	case len(bad) > 0:
+		sort.Strings(bad)
+		r.bad(rule, key, pos, strings.Join(firstN(bad, 3), "; "))
+	case len(undec) > 0:
+		sort.Strings(undec)
+		r.unk(rule, key, pos, strings.Join(firstN(undec, 3), "; "))
+	default:
+		r.ok(rule, key, pos, fmt.Sprintf("evaluated on %d concrete control messages (every E37 SType; session bytes 00/FF; byte 2 in 00 7F 80 FF; byte 3 in 00 01 02 FF): all accepted, the ten header bytes handed on unchanged", n))
+	}
 }
 
 // R22 decode-width — each numeric branch reads, and reinterprets, its own
